@@ -41,7 +41,7 @@ def run(tier):
         chain, _ = gen.enumerate_blocks(gen.rule_vocab(gen.C3), gen.RULE_SHAPES_CHAIN, 3)
         # every pair (binary operator, consumer operator) with every operand pattern: rules over instruction pairs
         pairs, _ = gen.enumerate_blocks(gen.rule_vocab(gen.C3), [["S", "T", "B", "O"], ["T", "U", "O"]], 3)
-        blocks = basic + pairs + corpus.sample(ctx, 300, seed) + corpus.sample(chain, 800, seed) + corpus.sample(const_blocks(V13), 400, seed)
+        blocks = basic + corpus.sample(ctx, 300, seed) + corpus.sample(chain, 800, seed) + corpus.sample(const_blocks(V13), 400, seed)
         wc = [("WordsCheck1q.cfg", "8-bit (reduced operand set)")]
     else:
         basic, _ = gen.enumerate_blocks(gen.rule_vocab(gen.C9), gen.RULE_SHAPES_BASIC, 3)
@@ -49,6 +49,7 @@ def run(tier):
         chain, _ = gen.enumerate_blocks(gen.rule_vocab(gen.C3), gen.RULE_SHAPES_CHAIN, 3)
         blocks = basic + ctx + chain + const_blocks(V13)
         wc = [("WordsCheck1.cfg", "8-bit"), ("WordsCheck2.cfg", "16-bit")]
+        pairs = []
     hand = corpus.hand_blocks()
     cmds = [{"cmd": "sfs", "text": t} for t in hand + blocks]
     # (M) the oracle is checked before it is believed
@@ -62,8 +63,21 @@ def run(tier):
 
     def pick(i):
         return cmds if (i < 2 or tier != "quick") else corpus.sample(cmds, len(cmds) // 2, seed + i)
-    res = pool.run_matrix([(["-greedy"] + argv, [dict(c) for c in pick(i)]) for i, (_, argv) in enumerate(sets)], timeout=20)
+    # the operator-pair instantiations run with rules enabled only, and only those on which a rule fired are validated
+    pair_cmds = [{"cmd": "sfs", "text": t} for t in pairs]
+    pair_sets = [("rules-gas", []), ("rules-size", ["-size"])] if pairs else []
+    res = pool.run_matrix([(["-greedy"] + argv, [dict(c) for c in pick(i)]) for i, (_, argv) in enumerate(sets)] +
+                          [(["-greedy"] + argv, [dict(c) for c in (pair_cmds if j == 0 else corpus.sample(pair_cmds, len(pair_cmds) // 3, seed))])
+                           for j, (_, argv) in enumerate(pair_sets)], timeout=20)
     cases, cnt = c02.cases_from([(n, r) for (n, _), r in zip(sets, res)], maxops=4, min_ops=0)
+    pcases, pcnt = c02.cases_from([(n + "-pairs", r) for (n, _), r in zip(pair_sets, res[len(sets):])], maxops=4, min_ops=0)
+    have = {common.stable_hash([c["sfs"], [(i["op"], i["k"], i["w"]) for i in c["prog"]]]) for c in cases}
+    for c in pcases:
+        if c["_rules"] and common.stable_hash([c["sfs"], [(i["op"], i["k"], i["w"]) for i in c["prog"]]]) not in have:
+            c["id"] = len(cases) + 1
+            cases.append(c)
+    for k in cnt:
+        cnt[k] += pcnt.get(k, 0)
     for c in cases:
         c["cap"] = 48 if tier == "quick" else 256
     verdicts, st = denote.run_denote(cases, 48, tag="c03")
